@@ -39,7 +39,8 @@ class Observer(BaseComponent):
         w = self.world
         name = event.name
         if name in ('generate_events',):
-            w.iterations += 1
+            if getattr(w, 'driver', None) is None:
+                w.iterations += 1
             return
         eid = getattr(event, 'eid', None)
         par = getattr(event.parent, 'eid', None) if getattr(event, 'parent', None) is not None else None
@@ -234,3 +235,78 @@ def snapv(v):
     if isinstance(v, tuple) and len(v) == 3 and isinstance(v[0], type) and issubclass(v[0], BaseException):
         return 'ERR'
     return v
+
+
+# ---------------------------------------------------------------------------------------------------
+# H-run: the real run() executes in the checking thread; a Driver component injects the script one loop
+# iteration at a time from a generate_events handler and stops the manager at quiescence / the horizon.
+
+from mc import doubles  # noqa: E402
+
+
+class Driver(BaseComponent):
+    world = None
+
+    @handler('generate_events', priority=1000)
+    def _gh_drive(self, event):
+        w = self.world
+        w.iterations += 1
+        try:
+            w.drive(event)
+        finally:
+            # contract of generate_events: a handler that did something must make sure nobody sleeps
+            event.reduce_time_left(0)
+
+
+class RunWorld(World):
+    """World whose root is driven by the real Manager.run()."""
+
+    def __init__(self, handlers, script=(), horizon=80, idle_needed=3, root_cls=BaseComponent):
+        doubles.patch_process_globals()
+        super().__init__(handlers, root_cls)
+        self.driver = Driver()
+        self.driver.world = self
+        self.driver.register(self.root)
+        while len(self.root):
+            self.root.flush()
+        del self.log[:]
+        self.script = list(script)
+        self.horizon = horizon
+        self.idle_needed = idle_needed
+        self.idle = 0
+        self.lastlen = -1
+        self.capped = False
+        self.stopped_by_driver = False
+        self.auto_stop = True
+
+    def drive(self, event):
+        self.log.append(('iter', self.iterations))
+        if self.script:
+            act = self.script.pop(0)
+            if act is not None:
+                act(self)
+            self.idle = 0
+            self.lastlen = len(self.log)
+            return
+        q, t = self.pending()
+        # the generate_events event being handled has already left the queue
+        quiet = (q == 0 and not t and len(self.log) == self.lastlen + 1)
+        self.lastlen = len(self.log)
+        if quiet:
+            self.idle += 1
+        else:
+            self.idle = 0
+        if self.auto_stop and (self.idle >= self.idle_needed or self.iterations >= self.horizon):
+            if self.iterations >= self.horizon and self.idle < self.idle_needed:
+                self.capped = True
+            self.stopped_by_driver = True
+            self.log.append(('driver-stop',))
+            self.root.stop()
+
+    def run(self):
+        """Returns ('return', None) | ('raise', repr) of run()."""
+        try:
+            self.root.run()
+            return ('return', None)
+        except BaseException as exc:  # noqa: BLE001 - SystemExit(code) is an expected outcome for C08
+            return ('raise', type(exc).__name__, getattr(exc, 'code', None))
